@@ -387,6 +387,9 @@ pub fn run_batch(prop: &str, seed: u64, runs: u64, workers: usize, wall_cap_s: u
             new_sigs.push((sig.clone(), *run, v.clone()));
         }
     }
+    if let Ok(f) = std::env::var("PERPSIM_ONLY_SIG") {
+        new_sigs.retain(|x| x.0.contains(&f));
+    }
     new_sigs.sort_by_key(|x| x.1);
     for (sig, run, v) in new_sigs.iter().take(6) {
         let rr = &results[*run as usize];
